@@ -14,7 +14,7 @@ fn kver(b: &Backend) -> &'static str {
 
 /// the PASERK definition, written directly: id = hash33("kN" || ".xid." || PASERK text of the key)
 fn direct_id(b: &Backend, kind: &str, text: &str) -> String {
-    let hdr = match kind { "local" => ".lid.", "public" => ".pid.", _ => ".sid." };
+    let hdr = match kind { "local" => ".lid.", "public" | "pke-public" => ".pid.", _ => ".sid." };
     let mut input = kver(b).as_bytes().to_vec();
     input.extend_from_slice(hdr.as_bytes());
     input.extend_from_slice(text.as_bytes());
@@ -43,7 +43,7 @@ fn check_key(b: &Backend, m: &mut M, rep: &mut Report, kind: &str, bytes: &[u8],
     let want = direct_id(b, kind, &text);
     // ... and of the key's PASERK text written down here, not taken from the implementation: every key handed to
     // this function is given in its canonical serialisation, so its text is header || base64url(bytes)
-    let khdr = match kind { "local" => ".local.", "public" => ".public.", _ => ".secret." };
+    let khdr = match kind { "local" => ".local.", "public" | "pke-public" => ".public.", _ => ".secret." };
     let own_text = format!("{}{}{}", kver(b), khdr, lab::b64(bytes));
     let want_own = direct_id(b, kind, &own_text);
     if !src.contains("pem") && id != want_own {
@@ -64,7 +64,8 @@ fn check_key(b: &Backend, m: &mut M, rep: &mut Report, kind: &str, bytes: &[u8],
         }
     }
     // text round trip of the id, exactly 33 bytes
-    match (b.keyid_cmp)(kind, &id, &id) {
+    let id_kind = match kind { "pke-secret" => "secret", "pke-public" => "public", k => k };
+    match (b.keyid_cmp)(id_kind, &id, &id) {
         Ok((true, 0, true, a, _)) if a.len() == 33 => {}
         other => rep.violation(&format!("c13.{}.{kind}.id-text", b.name), format!("{} id text does not parse back to an equal 33-byte id: {:?}", b.name, other.map(|x| (x.0, x.1, x.2, x.3.len()))), case.clone()),
     }
@@ -103,6 +104,22 @@ pub fn run(ctx: &Ctx) {
         for kp in &kps {
             keys.push(("secret", kp.sk.clone(), kp.source.into()));
             keys.push(("public", kp.pk.clone(), kp.source.into()));
+        }
+        // the key-sealing (PKE) kinds have ids too (sid / pid over their own PASERK text): v1 uses its 4096-bit keys,
+        // the other backends the same key material as for signing
+        let pke: Vec<(Vec<u8>, Vec<u8>)> = if b.ver == "v1" {
+            use rsa::pkcs1::DecodeRsaPrivateKey;
+            use rsa::pkcs8::spki::EncodePublicKey;
+            tok::corpus_rsa_keys(4096).into_iter().filter_map(|der| {
+                let pk = rsa::RsaPrivateKey::from_pkcs1_der(&der).ok()?.to_public_key().to_public_key_der().ok()?.into_vec();
+                Some((der, pk))
+            }).collect()
+        } else {
+            kps.iter().map(|kp| (kp.sk.clone(), kp.pk.clone())).collect()
+        };
+        for (sk, pk) in &pke {
+            keys.push(("pke-secret", sk.clone(), "parsed".into()));
+            keys.push(("pke-public", pk.clone(), "parsed".into()));
         }
         for (kind, bytes, src) in &keys {
             if let Some(id) = check_key(b, &mut m, &mut rep, kind, bytes, src) {
